@@ -8,7 +8,7 @@ from ..cfg import NORMAL, Node, handler_classes
 from ..core import Ctx
 from ..flow import ALL, find_path, names_in
 from ..model import AnalysisError, FunctionInfo, dotted, norm_text
-from .common import (cleanup_in_reraising_handler, edge_target, guarded_names, handler_exits, handler_key, handler_nodes, in_handler, kwarg,
+from .common import (str_consts, owner_tops, nonnull_inline_return_edges, cleanup_in_reraising_handler, edge_target, guarded_names, handler_exits, handler_key, handler_nodes, in_handler, kwarg,
                      path_arg, reachable_from)
 
 EXPLANATION = (
@@ -97,6 +97,8 @@ def r1(ctx: Ctx) -> None:
     if len(fns) < 20:
         raise AnalysisError(f"read path has only {len(fns)} functions - call graph broken")
     for f in fns:
+        if not ctx.prog.is_known(f):
+            continue  # a helper introduced later: its handlers are judged where it is inlined (in its callers)
         for hn in handler_nodes(ctx, f):
             if hn.id not in ctx.cfg(f).reachable():
                 continue
@@ -107,6 +109,9 @@ def r1(ctx: Ctx) -> None:
                 continue
             k = allow_key(ctx, f, hn)
             reason = SWALLOW_OK.get(k)
+            if reason is None:
+                for o in owner_tops(ctx, f):
+                    reason = reason or SWALLOW_OK.get((o.qname, k[1]))
             if reason is None and cleanup_in_reraising_handler(ctx, f, hn):
                 reason = "best-effort cleanup nested in a handler that re-raises the original error on every path"
             ctx.ob("C14.R1", f, handler_key(ctx, f, hn), hn, reason is not None,
@@ -167,24 +172,45 @@ def r3(ctx: Ctx) -> None:
     sl = ctx.slicer(f)
     rets = [n for n in g.nodes if n.kind == "return" and n.id in g.reachable()
             and isinstance(n.ast.value, ast.List) and not n.ast.value.elts]  # type: ignore[union-attr]
+    # objects from which .current_snapshot_id is read (their being None also means "no table / empty")
+    roots = {dotted(x.value) for n_ in g.nodes if n_.ast is not None for x in ast.walk(n_.ast)
+             if isinstance(x, ast.Attribute) and x.attr == "current_snapshot_id" and dotted(x.value)}
     for r in rets:
+        unset_edges = set()
         guards = []
         for b in g.nodes:
-            if b.kind != "branch" or not isinstance(b.ast, ast.Compare):
+            if b.kind != "branch":
                 continue
-            org = sl.origins(b.ast, b.id)
-            touches = any(isinstance(x, ast.Attribute) and x.attr == "current_snapshot_id" for e in org["exprs"] for x in ast.walk(e))
-            if touches and ("-1" in b.text or "None" in b.text):
-                guards.append(b)
-        # every path to the empty return leaves a guard through its FALSE edge (id is None / id == -1), and the
-        # all-true side raises
-        gf = {(b.id, d) for b in guards for d, l in g.succ[b.id] if l == "false"}
-        w = find_path(g, g.entry, [r.id], labels=ALL, edge_ok=lambda s_, d_, l_: (s_, d_) not in gf)
+            t_ = b.ast
+            subj = None
+            unset_label = None
+            if isinstance(t_, ast.Compare) and len(t_.ops) == 1:
+                org = sl.origins(t_.left, b.id)
+                touches = any(isinstance(x, ast.Attribute) and x.attr == "current_snapshot_id" for e in org["exprs"] for x in ast.walk(e)) \
+                    or dotted(t_.left) in roots
+                c0 = t_.comparators[0]
+                if touches and isinstance(c0, ast.Constant) and c0.value is None:
+                    unset_label = "true" if isinstance(t_.ops[0], (ast.Is, ast.Eq)) else "false"
+                elif touches and isinstance(c0, ast.UnaryOp) and isinstance(c0.operand, ast.Constant) and c0.operand.value == 1 \
+                        or touches and isinstance(c0, ast.Constant) and c0.value == -1:
+                    unset_label = "true" if isinstance(t_.ops[0], ast.Eq) else "false"
+            elif isinstance(t_, ast.Name) and t_.id in roots:
+                unset_label = "false"  # `if metadata:` - falsy means no table
+            if unset_label is None:
+                continue
+            guards.append(b)
+            for d, l in g.succ[b.id]:
+                if l == unset_label:
+                    unset_edges.add((b.id, d))
+        infeasible = nonnull_inline_return_edges(ctx, f, r)
+        w = find_path(g, g.entry, [r.id], labels=ALL, edge_ok=lambda s_, d_, l_: (s_, d_) not in unset_edges and (s_, d_) not in infeasible)
         raises = False
         for b in guards:
-            t = edge_target(g, b, "true")
-            if t is not None and any(g.nodes[x].kind == "raise" for x in reachable_from(g, t, NORMAL, avoid=[r.id])):
-                raises = True
+            for lab in ("true", "false"):
+                t = edge_target(g, b, lab)
+                if t is not None and (b.id, t) not in unset_edges and any(
+                        g.nodes[x].kind == "raise" for x in reachable_from(g, t, NORMAL, avoid=[r.id])):
+                    raises = True
         ok = bool(guards) and w is None and raises
         ctx.ob("C14.R3", f, "`return []` only when current_snapshot_id is unset", r, ok,
                "a SET current_snapshot_id that resolves to nothing raises instead of reporting an empty table")
@@ -290,8 +316,9 @@ def r4(ctx: Ctx) -> None:
     for e in env:
         d = e.ast.args[1] if isinstance(e.ast, ast.Call) and len(e.ast.args) > 1 else kwarg(e.ast, "default")
         tup = [n for n in ast.walk(rv.node) if isinstance(n, ast.Compare) and isinstance(n.ops[0], ast.In)]
-        vals = [c.value for t in tup for c in ast.walk(t.comparators[0]) if isinstance(c, ast.Constant)]
-        ok = isinstance(d, ast.Constant) and str(d.value).strip().lower() in [str(x) for x in vals]
+        vals = sorted(v for t in tup for v in str_consts(ctx, rv, t.comparators[0]))
+        dv = ctx.prog.const_str(d, rv.module, rv) if d is not None else None
+        ok = dv is not None and dv.strip().lower() in vals
     ctx.ob("C14.R4", rv, "verification defaults to ON", env[0] if env else None, ok,
            "the environment default is one of the values accepted as true")
 
@@ -350,6 +377,7 @@ def r5(ctx: Ctx) -> None:
             continue
         org = ctx.slicer(cf).origins(ex, c.id)
         helpers = [x for x in org["calls"] if isinstance(x, ast.Call) and ctx.prog.resolve_call(x, cf).kind == "func"
+                   and id(x) not in ctx.cfg(cf).inlined_calls  # a helper added later is looked through (its returns are sliced)
                    and not (dotted(x.func) or "").endswith(("read_manifest_file", "read_manifest_list_file"))]
         ctx.ob("C14.R5", cf, "carried-over files are the DataFile objects read from the manifest", c, not helpers,
                "existing_files derives from read_manifest_file(...) by filtering only"
